@@ -1,4 +1,4 @@
-add("C10", "checks/c10_queue.c", ["default-asan", "noinfo-asan", "default-plain"], ["default-asan", "noinfo-asan", "default-plain", "noinfo-plain"],
+add("C10", "checks/c10_queue.c", ["default-asan", "noinfo-asan", "default-plain", "c89-plain"], ["default-asan", "noinfo-asan", "default-plain", "noinfo-plain", "c89-plain"],
     "cases: phase 'enumerated' = one block per (capacity N in 1..4, 3-letter prefix) that runs EVERY history of length L over the 7-letter "
     "alphabet {push(-100), push(-200,\"xy\"), push(-100,'p\"q'), SCPI_ErrorPop, SYST:ERR?, SCPI_ErrorClear, count(API + SYST:ERR:COUN?)} with that "
     "prefix (L = 7 quick / 9 thorough in the gcc -O2 build, 7 / 8 under ASan; all shorter histories are prefixes and every operation is "
@@ -7,7 +7,7 @@ add("C10", "checks/c10_queue.c", ["default-asan", "noinfo-asan", "default-plain"
     "passing the text (exact-size unterminated source, longer source, length beyond the terminator, automatic length), random allocation "
     "failures, client keeping 0..4 popped texts. evaluations = operations executed on the real library and compared with the model; "
     "distinct_nontrivial = 1/64 subsample of enumerated histories + one key per random history (lower bound)",
-    extra_sources=["kit/ref_queue.c"], ldflags=["-Wl,--wrap=strndup", "-Wl,--wrap=free"],
+    extra_sources=["kit/ref_queue.c"], ldflags=["-Wl,--wrap=strndup", "-Wl,--wrap=free", "-Wl,--wrap=OUR_strndup"],
     level="fault_enumeration",
     exhaustive=dict(quick=False, thorough=False),
     technique="model-based runtime monitor: real error queue vs kit/ref_queue (shifting-array reference FIFO with overflow marker) compared after "
